@@ -17,6 +17,8 @@ VARIANTS = {
     "int": [3, 7, 11, 19],
     "mixed": ["a", 1, "b", 2],            # strings and ints in one alphabet (no symbol is the str() of another)
     "mixedstr": [1, "1", 2, "2"],         # ... and an alphabet in which every string IS the str() of an int symbol
+    # single characters beyond the Basic Multilingual Plane (two UTF-16 code units each) next to ASCII ones
+    "astral": ["\U0001D504", "b", "\U0001D56E", "\U00010000"],
 }
 
 
@@ -24,7 +26,7 @@ def big_syms(rng, kind):
     """symbols drawn from a large alphabet"""
     if kind == "bigint":
         return rng.sample(range(1000, 2000000000), 4)
-    return [chr(c) for c in rng.sample(range(0x100, 0x2FFF), 4)]
+    return [chr(c) for c in rng.sample(range(0x100, 0x2FFF), 3) + rng.sample(range(0x10000, 0x1FFFF), 1)]
 
 
 def strings(alphabet, maxlen):
